@@ -15,9 +15,13 @@ NA = {
  "C17": "equivalence of two configurations over all requests - pure; its isolation clause is exercised by the C05/C06 workloads",
 }
 
-PENDING = ["C18"]
+PENDING = []
 
 CHECKS = {
+ "C18": dict(cat="exploration", design="DESIGN.md §4 C18",
+   technique="deterministic simulation: client stream, scripted handler and a net/http-contract downstream stub as three in-process parties with stream faults; differential against the unwrapped handler plus a blocking model",
+   text="Every run sends one request through http.WrapHandler with a simulated client (body sizes around the limits, known/unknown length, chunking, failures), a scripted handler (reads, headers, 1xx/204/304, chunked writes, Flush, ReadFrom) and a recording downstream writer that follows the documented net/http contract. A small model decides whether and in which phase the configuration blocks; blocked cases are checked against the statement, unblocked ones differentially against the same handler script run unwrapped.",
+   note="trusted: the downstream stub's reading of the net/http contract; the blocking model (token rules and limit arithmetic); only deny and body-limit interruptions"),
  "C19": dict(cat="exploration", design="DESIGN.md §4 C19",
    technique="deterministic simulation: decision-table scenarios on a recording writer, and scheduler-interleaved transactions on the real serial/concurrent writers over a simulated disk and clock, under the race detector",
    text="Part 1 draws audit engine (configured and ctl-switched), relevant-status pattern, parts, format, log/nolog/auditlog/noauditlog combinations, interruptions and engine modes and compares record count, well-formedness, listed rules and error-callback multiplicity with a reference decision function written from the statement. Part 2 interleaves 2-6 tasks finishing transactions on one WAF whose real serial or concurrent writer writes to the simulated disk, with yields inside the writers and a simulated clock crossing minute/day boundaries; the files are parsed afterwards: whole records, each transaction exactly once, paths derived from timestamp and id, index entries not interleaved.",
